@@ -93,17 +93,17 @@ def op_names(prog):
 
 
 def fonts():
-    widths = [0] * (66 - 32 + 1)
+    widths = [0] * (67 - 32 + 1)
     widths[0] = 250
     widths[65 - 32] = 500
     widths[66 - 32] = 1000
     fd = {"Type": Name("FontDescriptor"), "FontName": Name("FontOne"), "Flags": 32, "FontBBox": [0, -200, 1000, 800],
-          "ItalicAngle": 0, "Ascent": 800, "Descent": -200, "CapHeight": 700, "StemV": 80, "MissingWidth": 0}
-    f1 = {"Type": Name("Font"), "Subtype": Name("Type1"), "BaseFont": Name("FontOne"), "FirstChar": 32, "LastChar": 66,
+          "ItalicAngle": 0, "Ascent": 800, "Descent": -200, "CapHeight": 700, "StemV": 80, "MissingWidth": 300}
+    f1 = {"Type": Name("Font"), "Subtype": Name("Type1"), "BaseFont": Name("FontOne"), "FirstChar": 32, "LastChar": 67,
           "Widths": widths, "FontDescriptor": fd, "Encoding": Name("WinAnsiEncoding")}
     fd2 = dict(fd, FontName=Name("FontTwo"))
     cid = {"Type": Name("Font"), "Subtype": Name("CIDFontType2"), "BaseFont": Name("FontTwo"),
-           "CIDSystemInfo": {"Registry": "Adobe", "Ordering": "Identity", "Supplement": 0}, "DW": 1000, "FontDescriptor": fd2}
+           "CIDSystemInfo": {"Registry": "Adobe", "Ordering": "Identity", "Supplement": 0}, "DW": 1000, "W": [32, [0]], "FontDescriptor": fd2}
     f2 = {"Type": Name("Font"), "Subtype": Name("Type0"), "BaseFont": Name("FontTwo"), "Encoding": Name("Identity-H"),
           "DescendantFonts": [cid]}
     return f1, f2
@@ -116,15 +116,22 @@ def build_doc(progs, forms, mediabox=(0, 0, 612, 792), split=None, numstyle=None
     objs = {1: {"Type": Name("Catalog"), "Pages": Ref(2)}, 3: f1, 4: f2}
     nxt = 5
     fres = {"F1": Ref(3), "F2": Ref(4)}
-    xo = {}
+    # form XObjects: `page` forms are listed in the page's /XObject dictionary under their key; a form with own=True gets a
+    # /Resources dictionary of its own (font F1 and the XObjects its `xo` lists, by LOCAL name), others inherit the caller's
+    ids = {}
+    for name in forms:
+        ids[name] = nxt
+        nxt += 1
     for name, f in forms.items():
         attrs = {"Type": Name("XObject"), "Subtype": Name("Form"), "BBox": [0, 0, 100, 100]}
         if list(f["m"]) != [1, 0, 0, 1, 0, 0]:
             attrs["Matrix"] = list(f["m"])
+        if f.get("own", list(f["m"]) != [1, 0, 0, 1, 0, 0]):
             attrs["Resources"] = {"Font": {"F1": Ref(3)}}
-        objs[nxt] = Stream(attrs, prog_bytes(f["body"]))
-        xo[name] = Ref(nxt)
-        nxt += 1
+            if f.get("xo"):
+                attrs["Resources"]["XObject"] = {local: Ref(ids[key]) for local, key in f["xo"].items()}
+        objs[ids[name]] = Stream(attrs, prog_bytes(f["body"]))
+    xo = {name: Ref(ids[name]) for name, f in forms.items() if f.get("page", True)}
     # the colour spaces of ContentInterp.tla's CSN table
     icc = {}
     for n in (1, 3, 4, None):
